@@ -10,9 +10,13 @@ import "github.com/talostrading/sonic/internal/vf"
 
 const (
 	c20MaxSlots = 3
-	c20MaxBytes = 16
 	c20K        = 6
 )
+
+// maximum parked bytes: 6 lets <= 3 packets of <= 3 bytes reach the byte capacity AND exhaust the
+// offsetter's index space (save index + bytes discarded since the last drain >= maxBytes) within the
+// history bound; the thorough tier also runs the roomy configuration
+var c20MaxBytes = 6
 
 type c20Ghost struct {
 	live  [c20K]bool
@@ -70,6 +74,10 @@ func c20PopCheck(b *ByteBuffer, sq *SlotSequencer, g *c20Ghost, s int) {
 
 func VerifC20_History() {
 	K := vf.Bound("k", 4, 6)
+	c20MaxBytes = 6
+	if vf.Thorough() && vf.Bool("roomy") {
+		c20MaxBytes = 16
+	}
 	b := NewByteBuffer()
 	sq := NewSlotSequencer(c20MaxSlots, c20MaxBytes)
 	g := &c20Ghost{}
@@ -89,7 +97,8 @@ func VerifC20_History() {
 			ok, err := sq.Push(s, slot)
 			if dup {
 				vf.Reach("duplicate")
-				vf.Assert("duplicate-rejected", vf.All(!ok, err == nil))
+				// rejected; when the push is ALSO beyond a capacity limit the rejection may carry that error
+				vf.Assert("duplicate-rejected", !ok)
 			}
 			if lc >= c20MaxSlots || lb+n > c20MaxBytes {
 				vf.Reach("opt:over-capacity")
@@ -97,6 +106,9 @@ func VerifC20_History() {
 			}
 			if err != nil {
 				vf.Assert("error-means-not-stored", !ok)
+				if !(lc >= c20MaxSlots || lb+n > c20MaxBytes) {
+					vf.Reach("opt:index-space-exhausted")
+				}
 			}
 			if ok {
 				i := g.cnt
